@@ -22,6 +22,12 @@ CLAIMS['C35'] = dict(engine='pyvc (E1) + rtc (E3)', category='proof',
          'deltaE_trial, MCmoves (batch == Metropolis move by move), copy and parameter extraction are run-time relational contracts (B) on real numba objects.',
     note='Assumes numba runs the class body with Python semantics (decorator dropped), table invariants from the constructor (run-time checked), reals for energies.')
 
+CLAIMS['C18'] = dict(engine='rtc (E3)', category='exploration',
+    technique='run-time contract on Crystal construction (group axioms, isometry, atom/spin map) over an enumerated catalogue: bounded stand-in for the contract; GroupOp algebra proved under C23',
+    text='Bounded: for every catalogue crystal (named lattices, low-symmetry, 2D, rotated settings, scalar/vector/complex spins, glide cells with several species, '
+         'NOSYM, strained) each reported operation satisfies the isometry / lattice / atom-map / spin contract and the set is a group. Not a proof.',
+    note='Tolerances fixed in the contract; the catalogue is the bound.')
+
 NOT_APPLICABLE = {
     'C01': 'no contract within reach: the postcondition "equals the infinite-dilution limit of the exact Markov chain, to integration accuracy" needs an independent infinite-lattice solver as oracle (differential testing, a different technique) and no SMT/CAS obligation expresses a quadrature error; the discrete mechanisms it rests on are claimed in C24-C26, its invariances in C04, its sum rules in C06',
     'C05': 'a 2-safety statement about the Loewner order of two outputs (Rayleigh monotonicity): a variational theorem of detailed balance, not an invariant of any loop or a postcondition of one call; its only executable form is a numeric comparison of two runs (testing, not contract checking)',
